@@ -11,7 +11,7 @@ LEVEL = 'fault_enumeration'
 RULE = ('case = (stream bytes incl. sentinel tail, Content-Length below/equal/above the bytes available, buffer = '
         'max_memfile_size, read-fragmentation pattern = caps for successive read() calls, entry point '
         '_body_read | Request.body through WSGI read twice, content type none / octet-stream / JSON / urlencoded / multipart with a well-formed body whose closing delimiter '
-        'is followed by an epilogue, max_body_size unset, >= Content-Length incl. equal, or below it (413 expected, the read audit still applies); wsgi.input = fragmenting stream, a real seekable stream that stands behind the bytes of an earlier request, or an unbuffered io.RawIOBase stream (readinto with short reads) that holds more than the declared length; between the two reads of request.body the handler may re-assign CONTENT_TYPE / a re-spelled CONTENT_LENGTH / a header / the query string through request[...]; declared lengths up to 2^31 with an early end of stream; the wsgi.input_terminated flag set or not; Content-Length spelled with leading zeros; any request method incl. HEAD and TRACE; an earlier body-less request on the same application whose handler closed or wrote into its empty body). Plus two bodies read concurrently on two threads (readinto and read streams), every single-preemption schedule. Hypothesis-generated plus exhaustive enumeration of all '
+        'is followed by an epilogue, max_body_size unset, >= Content-Length incl. equal, or below it (413 expected, the read audit still applies); wsgi.input = fragmenting stream, a real seekable stream that stands behind the bytes of an earlier request, or an unbuffered io.RawIOBase stream (readinto with short reads) that holds more than the declared length; between the two reads of request.body the handler may re-assign CONTENT_TYPE / a re-spelled CONTENT_LENGTH / a header / the query string through request[...]; declared lengths up to 2^31 with an early end of stream; the wsgi.input_terminated flag set or not; Content-Length spelled with leading zeros; any request method incl. HEAD and TRACE; an earlier body-less request on the same application whose handler closed or wrote into its empty body; an earlier request with its own Content-Length body served over the SAME wsgi.input stream object (keep-alive connection, another environ dict): each request gets its own bytes and the read audit starts anew; a well-formed JSON / urlencoded body of which the handler reads all / a part / nothing through request.body BEFORE it first asks for request.json / forms / POST / params: the parsed view is that of the whole body). Plus two bodies read concurrently on two threads (readinto and read streams), every single-preemption schedule. Hypothesis-generated plus exhaustive enumeration of all '
         'compositions (cap sequences) of every body length <= 9 for buffers 1..11. Oracle: body == first '
         'min(CL, available) stream bytes; no read(n) asks for more than CL minus bytes already delivered; no '
         'read(-1). Non-trivial = at least one short read happened, or CL != available, or the body spilled to a '
@@ -26,8 +26,25 @@ CTYPES = [None, None, 'application/octet-stream', 'multipart/form-data; boundary
           'multipart/mixed; boundary=bnd', 'text/plain']
 
 
+# well-formed bodies whose parsed view is known to the harness: (body bytes, expected request.json, expected request.forms == POST == params (no query string))
+_JDOC = {'event': 'push', 'ids': [1, 2, 3], 'sig': 'x' * 40, 'nested': {'a': None, 'b': [True, 1.5]}}
+_JLIST = [1, 'two', {'three': 3}, 'y' * 70]
+_FORM = {'user': 'alice', 'token': '0123456789abcdef', 'note': 'hello world', 'sym': '=&+%', 'e': ''}
+VIEW_DOCS = {
+    'application/json': [(__import__('json').dumps(_JDOC).encode(), _JDOC, _JDOC), (__import__('json').dumps(_JLIST, indent=1).encode(), _JLIST, {}), (b'{"k": "v"}', {'k': 'v'}, {'k': 'v'})],
+    'application/x-www-form-urlencoded': [(b'user=alice&token=0123456789abcdef&note=hello+world&sym=%3D%26%2B%25&e=', None, _FORM), (b'k=v', None, {'k': 'v'})],
+}
+VIEWS = [{'attr': a, 'read': k} for a in ('json', 'forms', 'POST', 'params') for k in (None, 0, 1, 11, 1000)]
+
+
 def _strategy():
-    def build(data, clmode, delta, buf, pattern, via, anycl, ctype, mp, epi, maxb, stream_kind, huge, term, reassign, first_read):
+    def build(data, clmode, delta, buf, pattern, via, anycl, ctype, mp, epi, maxb, stream_kind, huge, term, reassign, first_read, view, keep):
+        doc = None
+        if view and ctype in VIEW_DOCS:
+            doc = VIEW_DOCS[ctype][delta % len(VIEW_DOCS[ctype])][0]
+            data = doc + data[:delta % 7]                    # a well-formed document followed by a few sentinel bytes
+            clmode = 'doc'
+            buf = max(buf, len(doc))                         # (a non-multipart body is parsed only up to max_memfile_size)
         if mp and ctype and ctype.startswith('multipart/'):
             data = MP_BODY + epi + data[:delta % 7]          # a well-formed multipart body (closing delimiter + epilogue) followed by a few sentinel bytes
             if clmode == 'eq':
@@ -41,6 +58,8 @@ def _strategy():
             cl = n + delta
         elif clmode == 'mp':
             cl = len(MP_BODY + epi)
+        elif clmode == 'doc':
+            cl = len(doc)
         else:
             cl = anycl
         if huge is not None and clmode in ('above', 'any'):
@@ -70,6 +89,10 @@ def _strategy():
         if reassign and case['via'] == 'wsgi' and maxb is None:
             case['reassign'] = reassign
             case['first_read'] = first_read
+        if doc is not None:
+            case['view'] = dict(view, doc=delta % len(VIEW_DOCS[ctype]))
+        if keep is not None and case['via'] == 'wsgi' and maxb is None:
+            case['keepalive'] = keep                         # length of the body of an earlier request served over the same stream object
         return case
     data = st.one_of(st.binary(max_size=40), st.binary(min_size=30, max_size=220))
     return st.builds(
@@ -84,7 +107,8 @@ def _strategy():
         st.sampled_from([None, None, None, 0, 0, 1, 1000, -1, -7, -1000]),
         st.sampled_from([None, None, None, 'bytesio_at_offset', 'bufferedreader_at_offset', 'rawio', 'rawio']),
         st.sampled_from([None, None, None, 2**20, 2**20 + 1, 3 * 2**20, 2**31]), st.sampled_from([None, None, None, True, True, False]),
-        st.sampled_from([None, None, None, 'ctype', 'cl_respelled', 'header', 'query']), st.sampled_from([None, 0, 1, 7, 1000]))
+        st.sampled_from([None, None, None, 'ctype', 'cl_respelled', 'header', 'query']), st.sampled_from([None, 0, 1, 7, 1000]),
+        st.sampled_from([None] + VIEWS), st.sampled_from([None, None, None, 0, 1, 9, 40, 300]))
 
 
 def _read_direct(case, stream):
@@ -120,9 +144,36 @@ def _read_wsgi(case, stream):
         for em, ecl in (('GET', None), ('POST', 0)):
             call_app(app, make_environ(em, '/e', body=b'', content_length=ecl))
 
+    if case.get('keepalive') is not None:
+        # an earlier request of the same connection: another environ dict, the SAME stream object, its own Content-Length body in front of ours
+        n1 = case['keepalive']
+
+        @app.route('/k', method='POST')
+        def k():
+            seen['k'] = app.request.body.read()
+            return 'k'
+        rk = call_app(app, make_environ('POST', '/k', stream=stream, content_length=n1, headers={'Content-Type': 'application/octet-stream'}))
+        if rk.escaped is not None or rk.code != 200:
+            raise CheckFailure(f'earlier request on the connection ({n1}-byte body): {rk.status!r} {fmt_exc(rk.escaped) if rk.escaped else rk.errors[-300:]}')
+        if seen.get('k') != keepalive_body(n1):
+            raise CheckFailure(f'earlier request on the connection: body of {n1} bytes arrived as {seen.get("k")!r:.80}')
+        if stream_consumed(stream) != n1:
+            raise CheckFailure(f'earlier request on the connection declared {n1} bytes, {stream_consumed(stream)} were consumed from the stream')
+        stream_rebase(stream, n1)          # harness bookkeeping only: the recorded reads / offsets count from the start of our body from here on
+
     @app.route('/b', method=['POST', 'PUT', 'PATCH', 'DELETE', 'GET', 'HEAD', 'OPTIONS', 'TRACE', 'REPORT'])
     def h():
         rq = app.request
+        view = case.get('view')
+        if view:
+            # the handler looks at the raw body first (all of it, a few bytes, or just obtains it), only then asks for the parsed view for the first time
+            f0 = rq.body
+            if view['read'] is None:
+                f0.read()
+            elif view['read']:
+                f0.read(view['read'])
+            v = getattr(rq, view['attr'])
+            seen['view'] = v if view['attr'] == 'json' else dict(v)
         f1 = rq.body
         b1 = f1.read() if case.get('first_read') is None else f1.read(case['first_read']) + f1.read()
         ra = case.get('reassign')
@@ -176,9 +227,33 @@ def _read_wsgi(case, stream):
     if case.get('interleave') is not None and seen.get('inter') != (True, True, True, True):
         raise CheckFailure(f'reads interleaved between two request objects over one body ({case["second_object"]}, {len(seen.get("b1") or b"")} bytes, first {case["interleave"]} read through the first object, '
                            f'then all through the second, then the first from the start): (part, second, first again, second again) correct = {seen.get("inter")}')
+    if case.get('view'):
+        _, wj, wf = VIEW_DOCS[case['ctype']][case['view']['doc']]
+        want = wj if case['view']['attr'] == 'json' else wf
+        if seen.get('view') != want:
+            raise CheckFailure(f'request.{case["view"]["attr"]} asked for the first time after request.body.read({"" if case["view"]["read"] is None else case["view"]["read"]}) is not the parsed view of the '
+                               f'whole {case["cl"]}-byte {case["ctype"]} body: got {seen.get("view")!r:.300}, want {want!r:.300}')
     if r.body != seen.get('b1') and (case.get('method') or 'POST') != 'HEAD':
         raise CheckFailure('echoed body differs from what the handler read')
     return seen['b1'], seen['spilled']
+
+
+def keepalive_body(n):
+    return bytes(0x61 + (i * 5) % 26 for i in range(n))
+
+
+def stream_consumed(stream):
+    return stream.f.tell() - stream.base if isinstance(stream, OffsetStream) else stream.pos
+
+
+def stream_rebase(stream, n):
+    stream.requests.clear()
+    if isinstance(stream, OffsetStream):
+        stream.base += n
+        stream.total -= n
+    else:
+        stream.data = stream.data[n:]
+        stream.pos -= n
 
 
 class RawStream(__import__('io').RawIOBase):
@@ -245,10 +320,13 @@ class OffsetStream:
 
 def check_case(ctx, case):
     data, cl, buf = case['data'], case['cl'], case['buf']
+    wire = data
+    if case.get('keepalive') is not None and case['via'] == 'wsgi':
+        wire = keepalive_body(case['keepalive']) + data
     if case.get('stream') == 'rawio':
-        stream = RawStream(data, case['pattern'])
+        stream = RawStream(wire, case['pattern'])
     else:
-        stream = OffsetStream(data, case['stream']) if case.get('stream') else FragStream(data, case['pattern'])
+        stream = OffsetStream(wire, case['stream']) if case.get('stream') else FragStream(wire, case['pattern'])
     try:
         got, spilled = (_read_wsgi if case['via'] == 'wsgi' else _read_direct)(case, stream)
     except CheckFailure:
@@ -298,6 +376,10 @@ def check_case(ctx, case):
         ctx.count('seekable_stream_positioned_after_earlier_bytes')
     if case.get('reassign'):
         ctx.count('request_key_reassigned_between_two_body_reads')
+    if case.get('keepalive') is not None and case['via'] == 'wsgi':
+        ctx.count('earlier_request_with_a_body_over_the_same_stream_object')
+    if case.get('view') and got is not None:
+        ctx.count('parsed_view_first_asked_for_after_reading_request_body')
     if case.get('cl_zeros'):
         ctx.count('content_length_spelled_with_leading_zeros')
     if cl >= 2**20:
@@ -431,6 +513,25 @@ def run(ctx):
                         ctx.guarded(check_case, {'data': bytes(65 + (i * 7) % 26 for i in range(n_)) + b'##', 'cl': n_, 'buf': buf, 'pattern': [4096], 'via': 'wsgi', 'ctype': None, 'second_object': so,
                                                  'interleave': k})
         ctx.count('second_request_object_grid')
+        # an earlier request with a body over the same stream object (keep-alive): every stream kind, in memory and spilled
+        for kind in (None, 'rawio', 'bytesio_at_offset', 'bufferedreader_at_offset'):
+            for n1 in (0, 1, 40, 3000):
+                for n_ in (0, 1, 40, 3000):
+                    for buf in (8, 102400):
+                        for pattern in ([], [7]):
+                            c = {'data': bytes(65 + i % 26 for i in range(n_)) + b'##', 'cl': n_, 'buf': buf, 'pattern': pattern, 'via': 'wsgi', 'ctype': None, 'keepalive': n1}
+                            if kind:
+                                c['stream'] = kind
+                            ctx.guarded(check_case, c)
+        ctx.count('keepalive_grid')
+        # request.body read (all / part / not at all) before the first access to a parsed view
+        for ct, docs in VIEW_DOCS.items():
+            for di, (doc, _, _) in enumerate(docs):
+                for v in VIEWS:
+                    for buf in (len(doc), 102400):
+                        for pattern in ([], [5]):
+                            ctx.guarded(check_case, {'data': doc + b'##', 'cl': len(doc), 'buf': buf, 'pattern': pattern, 'via': 'wsgi', 'ctype': ct, 'view': dict(v, doc=di)})
+        ctx.count('parsed_view_after_body_read_grid')
         for kind in ('rawio', 'frag'):
             for n_ in (5, 40, 2048):
                 ctx.guarded(check_threaded, {'threaded': True, 'stream': kind, 'n': n_, 'buf': 16 if n_ < 100 else 1024})
